@@ -9,6 +9,7 @@
 __all__ = """
 SHOW_INFORMATIONAL_MESSAGES
 check_workers
+finish_checking_workers
 put_checking_workers
 resolve_parallelism
 """.split()
@@ -16,6 +17,7 @@ resolve_parallelism
 import multiprocessing as mp
 import os
 import sys
+import threading
 
 SHOW_INFORMATIONAL_MESSAGES = True
 
@@ -123,3 +125,22 @@ def put_checking_workers(queue, item, workers, done_event):
             return
         except Full:
             check_workers(workers, done_event, (queue,))
+
+
+def finish_checking_workers(queue, workers, done_event):
+    """Close a queue and wait until every item put on it has been handed over
+    to the operating system, raising an exception instead of blocking forever
+    if a worker process has died and no one is left to receive the items that
+    are still buffered."""
+    queue.close()
+
+    joiner = threading.Thread(target=queue.join_thread, daemon=True)
+    joiner.start()
+
+    while True:
+        joiner.join(1)
+
+        if not joiner.is_alive():
+            return
+
+        check_workers(workers, done_event, (queue,))
